@@ -459,6 +459,9 @@ pub fn run_prop(ctx: &Ctx, findings: &Findings) -> PropReport {
         }
     } else {
         let _ = slot_keys();
+        // a failing world costs ~50 ms per shrink step: bound the search so that a violation is reported
+        // within the quick budget
+        MAX_SHRINK_ITERS.store(300, std::sync::atomic::Ordering::Relaxed);
         let probes = ctx.tier.pick(24, 128);
         subs.push(drive(ctx, findings, "routing", RULE, ctx.cases(1500, 30000), move || strategy(probes), &check_routing));
     }
@@ -475,6 +478,7 @@ pub fn run_prop(ctx: &Ctx, findings: &Findings) -> PropReport {
 }
 
 pub fn run_phases_for_c14(ctx: &Ctx, findings: &Findings) -> SubReport {
+    MAX_SHRINK_ITERS.store(300, std::sync::atomic::Ordering::Relaxed);
     drive(ctx, findings, "phases", RULE_TOPO, ctx.cases(1500, 30000), || strategy(9), &check_topology)
 }
 
